@@ -231,10 +231,21 @@ func c20Units(c *Ctx, p *Prog) {
 			fracParam = q
 		}
 	}
-	for _, b := range sdf.Blocks {
+	// Every call of the digit writer in the compact style (the formatter itself and the helpers it is cut into,
+	// entered with their call-site context) is one component: its unit is what the same block wrote before it
+	// (constant bytes right to left, or a copied string - possibly a parameter bound at the call site), its value's
+	// divisor is read off the value's term.
+	te := newTermEval(p)
+	te.noInline = func(f *ssa.Function) bool { return f == fmtInt || nm(f) == "fmtFrac" }
+	sites, _ := te.callsOf(sdf, func(f *ssa.Function) bool { return f.Pkg == p.Times && f != fmtInt && nm(f) != "fmtFrac" })
+	for _, site := range sites {
+		x, isCall := site.Instr.(*ssa.Call)
+		if !isCall || calleeOf(x) != fmtInt {
+			continue
+		}
 		// only the compact style has its own units; the fractional style is the standard library's algorithm (h, m, s)
 		compact := false
-		for _, g := range guardsOf(b) {
+		for _, g := range site.guards() {
 			cond, neg := normCond(g.If.Cond)
 			if cond == ssa.Value(fracParam) && ((g.Succ == 1) != neg) {
 				compact = true
@@ -245,51 +256,55 @@ func c20Units(c *Ctx, p *Prog) {
 		}
 		var suffix []byte // in store order (right to left)
 		var copied string
-		for _, in := range b.Instrs {
-			switch x := in.(type) {
+		for _, in := range x.Block().Instrs {
+			if in == ssa.Instruction(x) {
+				break
+			}
+			switch y := in.(type) {
 			case *ssa.Store:
-				if _, ok := x.Addr.(*ssa.IndexAddr); ok {
-					if v, ok := constInt(x.Val); ok {
+				if _, ok := y.Addr.(*ssa.IndexAddr); ok {
+					if v, ok := constInt(y.Val); ok {
 						suffix = append(suffix, byte(v))
 					}
 				}
 			case *ssa.Call:
-				if isBuiltinCall(x, "copy") {
-					if s, ok := constString(x.Common().Args[1]); ok {
-						copied = s
+				if isBuiltinCall(y, "copy") {
+					if t := te.eval(y.Common().Args[1], site.Ctx); t.Op == "const" {
+						if cv, ok := t.V.(*ssa.Const); ok && cv.Value != nil && cv.Value.Kind() == constant.String {
+							copied = constant.StringVal(cv.Value)
+						}
 					}
 				}
-				if calleeOf(x) != fmtInt {
-					continue
-				}
-				unit := copied
-				if unit == "" {
-					rev := make([]byte, len(suffix))
-					for i := range suffix {
-						rev[len(suffix)-1-i] = suffix[i]
-					}
-					unit = string(rev)
-				}
-				suffix, copied = nil, ""
-				if unit == "" || unit == "-" {
-					continue
-				}
-				// divisor of the value operand
-				div := divisorOf(x.Common().Args[1])
-				key := "unit:" + unit
-				n++
-				mult, in := units[unit]
-				switch {
-				case !in:
-					r.Bad("R20.2", key, p.Pos(instrPos(x)), "the formatter writes the unit %q, which the parser's unitMap does not know: the text cannot be parsed back", unit)
-				case div == nil:
-					r.Unk("R20.2", key, p.Pos(instrPos(x)), "the divisor of the %q component could not be determined", unit)
-				case div.Cmp(mult) != 0:
-					r.Bad("R20.2", key, p.Pos(instrPos(x)), "the %q component is computed with divisor %s but the parser multiplies %q by %s", unit, div, unit, mult)
-				default:
-					r.Ok("R20.2", key, p.Pos(instrPos(x)), "component divisor %s = unitMap[%q]", div, unit)
+				if calleeOf(y) == fmtInt {
+					suffix, copied = nil, ""
 				}
 			}
+		}
+		unit := copied
+		if unit == "" {
+			rev := make([]byte, len(suffix))
+			for i := range suffix {
+				rev[len(suffix)-1-i] = suffix[i]
+			}
+			unit = string(rev)
+		}
+		if unit == "" || unit == "-" {
+			continue
+		}
+		// divisor of the value operand
+		div := divisorOfTerm(te.eval(x.Common().Args[1], site.Ctx))
+		key := "unit:" + unit
+		n++
+		mult, in := units[unit]
+		switch {
+		case !in:
+			r.Bad("R20.2", key, p.Pos(instrPos(x)), "the formatter writes the unit %q, which the parser's unitMap does not know: the text cannot be parsed back", unit)
+		case div == nil:
+			r.Unk("R20.2", key, p.Pos(instrPos(x)), "the divisor of the %q component could not be determined", unit)
+		case div.Cmp(mult) != 0:
+			r.Bad("R20.2", key, p.Pos(instrPos(x)), "the %q component is computed with divisor %s but the parser multiplies %q by %s", unit, div, unit, mult)
+		default:
+			r.Ok("R20.2", key, p.Pos(instrPos(x)), "component divisor %s = unitMap[%q]", div, unit)
 		}
 	}
 	if n < 7 {
@@ -327,4 +342,47 @@ func divisorOf(v ssa.Value) *big.Int {
 		return d
 	}
 	return nil
+}
+
+// divisorOfTerm: the value is (0 or) X / c1 / c2 ... or X % m (the remainder: divisor 1); returns the product of
+// the divisors, which must be the same for every non-zero alternative.
+func divisorOfTerm(t *Term) *big.Int {
+	var out *big.Int
+	for _, alt := range t.alts() {
+		if alt.Op == "const" && alt.Name == "0" {
+			continue
+		}
+		d := big.NewInt(1)
+		cur := alt
+		for i := 0; i < 8; i++ {
+			if cur.Op == "un" && strings.HasPrefix(cur.Name, "conv:") {
+				cur = cur.Args[0]
+				continue
+			}
+			if cur.Op != "bin" {
+				break
+			}
+			if cur.Name == "/" {
+				if cur.Args[1].Op != "const" {
+					return nil
+				}
+				cu, ok := new(big.Int).SetString(cur.Args[1].Name, 10)
+				if !ok {
+					return nil
+				}
+				d.Mul(d, cu)
+				cur = cur.Args[0]
+				continue
+			}
+			if cur.Name == "%" {
+				break
+			}
+			return nil
+		}
+		if out != nil && out.Cmp(d) != 0 {
+			return nil
+		}
+		out = d
+	}
+	return out
 }
